@@ -37,7 +37,18 @@ class ObFail(Exception):
         self.detail = detail
 
 
-def run_obligation(pkg, fn, hook=None, max_paths=256):
+def size_constants(results):
+    """Constants against which the analysed code tests a collection size / iteration counter (from undecided results)."""
+    import re
+    out = set()
+    for r in results:
+        if r.get("status") == "error":
+            for m in re.finditer(r"(?:modulo / divided by|compared with) (\d+)", r.get("detail", "")):
+                out.add(int(m.group(1)))
+    return sorted(x for x in out if 2 <= x <= 20000)
+
+
+def run_obligation(pkg, fn, hook=None, max_paths=256, allow_size_thresholds=False):
     """fn(it) -> stats dict, or raises ObFail(detail).  All paths are explored; every path must succeed.
 
     Returns dict(status, detail, paths, stats)."""
@@ -49,7 +60,7 @@ def run_obligation(pkg, fn, hook=None, max_paths=256):
             try:
                 res = fn(it)
                 thr = [e for e in it.events if e[0] == "size-threshold"]
-                if thr:
+                if thr and not allow_size_thresholds:
                     raise Unsupported("the behaviour depends on the size of a collection (%s): a finite scenario cannot speak for larger "
                                       "inputs" % thr[0][1])
                 return ("ok", res, True)
